@@ -11,16 +11,16 @@
 #include <sys/resource.h>
 #include <sys/wait.h>
 
-struct Faults { int open_fail = -1; int w1 = -1, w2 = -1; int persistent = -1; int lock_fail = -1; int err = 0; /* 0 EIO, 1 ENOSPC, 2 EINTR, 3 EAGAIN, 4 stall: pwrite returns 0 */ };
+struct Faults { int open_fail = -1; int w1 = -1, w2 = -1; int persistent = -1; int lock_fail = -1; int close_fail = -1; int err = 0; /* 0 EIO, 1 ENOSPC, 2 EINTR, 3 EAGAIN, 4 stall: pwrite returns 0 */ };
 static const int ERRNOS[5] = { EIO, ENOSPC, EINTR, EAGAIN, 0 };
 static std::string faults_str(const Faults& f)
 {
-    char b[160]; snprintf(b, sizeof b, "open_fail=%d,w1=%d,w2=%d,persistent=%d,lock_fail=%d,err=%d", f.open_fail, f.w1, f.w2, f.persistent, f.lock_fail, f.err); return b;
+    char b[192]; snprintf(b, sizeof b, "open_fail=%d,w1=%d,w2=%d,persistent=%d,lock_fail=%d,err=%d,close_fail=%d", f.open_fail, f.w1, f.w2, f.persistent, f.lock_fail, f.err, f.close_fail); return b;
 }
 static const char* KIND_NAME(int k) { switch (k) { case BasicDevice_Storage_Raw: return "raw"; case BasicDevice_Storage_Tiff: return "tiff"; case BasicDevice_Storage_Trash: return "trash"; case BasicDevice_Storage_SideBySideTiffJson: return "tiff-json"; } return "?"; }
 
 static int g_hangs; // after three hangs the errno variants are not enumerated further (each costs its full time-out)
-struct Outcome { char verdict[16]; char clause[64]; char detail[400]; int writes, opens; };
+struct Outcome { char verdict[16]; char clause[64]; char detail[400]; int writes, opens, closes; };
 
 // ops: 's' set, 'r' start, 'a' append (2 frames), 'p' stop; close is implicit at the end
 static void child_run(int kind, const std::string& ops, const Faults& f, Outcome* out)
@@ -30,6 +30,7 @@ static void child_run(int kind, const std::string& ops, const Faults& f, Outcome
     ENV = Env();
     ENV.open_fail_at = f.open_fail;
     ENV.lock_fail_at = f.lock_fail;
+    ENV.close_fail_at = f.close_fail;
     ENV.fail_errno = ERRNOS[f.err % 5]; ENV.stall = (f.err == 4);
     ENV.persistent_from = f.persistent;
     int maxw = f.w2 > f.w1 ? f.w2 : f.w1;
@@ -79,7 +80,7 @@ static void child_run(int kind, const std::string& ops, const Faults& f, Outcome
     DEV(storage_close(dev));
     if (!ENV.err.empty()) fail("descriptor-discipline", "%s at close: %s", KIND_NAME(kind), ENV.err.c_str());
     if (!ENV.owned.empty()) fail("descriptor-leaked", "%s: descriptor %d opened by the device was never closed (%zu left open after close)", KIND_NAME(kind), *ENV.owned.begin(), ENV.owned.size());
-    out->writes = ENV.nwrites; out->opens = ENV.nopens;
+    out->writes = ENV.nwrites; out->opens = ENV.nopens; out->closes = ENV.ncloses;
 }
 
 static Outcome* g_shared;
@@ -142,7 +143,7 @@ int main(int argc, char** argv)
         size_t bar = replay.find('|');
         std::string ops = replay.substr(0, bar);
         Faults f;
-        if (bar != std::string::npos) sscanf(replay.c_str() + bar + 1, "open_fail=%d,w1=%d,w2=%d,persistent=%d,lock_fail=%d,err=%d", &f.open_fail, &f.w1, &f.w2, &f.persistent, &f.lock_fail, &f.err);
+        if (bar != std::string::npos) sscanf(replay.c_str() + bar + 1, "open_fail=%d,w1=%d,w2=%d,persistent=%d,lock_fail=%d,err=%d,close_fail=%d", &f.open_fail, &f.w1, &f.w2, &f.persistent, &f.lock_fail, &f.err, &f.close_fail);
         Outcome o = run_forked(kind, ops, f);
         h_rmtree(g_scratch);
         printf("%s: open;%s;close with %s -> %s %s %s (%d pwrite calls, %d opens)\n", KIND_NAME(kind), ops.c_str(), faults_str(f).c_str(), o.verdict, o.clause, o.detail, o.writes, o.opens);
@@ -174,6 +175,8 @@ int main(int argc, char** argv)
         int W = base.writes, O = base.opens;
         for (int j = 0; j < O; ++j) { Faults f; f.open_fail = j; note(ops, f, run_forked(kind, ops, f)); ++with_faults; }
         if (O) { Faults f; f.open_fail = -2; note(ops, f, run_forked(kind, ops, f)); ++with_faults; }
+        // the j-th close reports an error (the descriptor is gone all the same): the device must not close or use that number again
+        for (int j = 0; j < base.closes; ++j) { Faults f; f.close_fail = j; note(ops, f, run_forked(kind, ops, f)); ++with_faults; }
         // creating a file = open + lock: the lock is refused (another process or device holds the file) at the j-th create, or at all
         for (int j = 0; j < O; ++j) { Faults f; f.lock_fail = j; note(ops, f, run_forked(kind, ops, f)); ++with_faults; }
         if (O) { Faults f; f.lock_fail = -2; note(ops, f, run_forked(kind, ops, f)); ++with_faults; }
